@@ -176,6 +176,7 @@ package main
 // a failed execution is answered by writeInternalError only: the handler itself sets a status (other than 400 for a
 // rejected request) only after Execute succeeded, and hands writeInternalError the context of this request
 //@   callpreif glyph.writeEncodedJSON local(err) == nil
+//@   callpre (http.ResponseWriter).WriteHeader arg1 == 400
 //@   callpre glyph.writeInternalError arg0 == ctx
 //@   callpre (*json.Encoder).Encode ctx.StatusCode >= 400
 // a status line is committed only for a body that has been encoded: a value JSON cannot carry ends
